@@ -51,7 +51,7 @@ def verus_name_to_q(name):
     return parts
 
 def run_verus(path, unit, rlimit=None, seed=None, timeout=1500):
-    cmd = ["verus", path, "--output-json", "--time", "--error-format=json", "--multiple-errors", "8", "--no-report-long-running", "--no-lifetime"]
+    cmd = ["verus", path, "--output-json", "--time", "--error-format=json", "--multiple-errors", "8", "--no-report-long-running", "--no-lifetime", "-V", "spinoff-all"]
     if rlimit: cmd += ["--rlimit", str(rlimit)]
     if seed is not None: cmd += ["--smt-option", "smt.random_seed=%d" % seed]
     res = VerusResult(); res.cmd = " ".join(cmd)
